@@ -101,6 +101,39 @@ func (c *Config) procs() []Proc {
 	return append(ps, c.Mids2...)
 }
 
+// observes tells whether any process of the configuration has observation
+// points in its start-up history.
+func (c *Config) observes() bool {
+	for _, p := range c.procs() {
+		if len(p.Obs) > 0 {
+			return true
+		}
+	}
+	return false
+}
+
+// plain is the same configuration without any observation point.
+func (c *Config) plain() *Config {
+	d := *c
+	pp := func(p *Proc) *Proc {
+		if p == nil {
+			return nil
+		}
+		q := p.plain()
+		return &q
+	}
+	ps := func(ms []Proc) []Proc {
+		var out []Proc
+		for _, m := range ms {
+			out = append(out, m.plain())
+		}
+		return out
+	}
+	d.Proc, d.Sender, d.Sender2, d.Recv = pp(c.Proc), pp(c.Sender), pp(c.Sender2), pp(c.Recv)
+	d.Mids, d.Mids2 = ps(c.Mids), ps(c.Mids2)
+	return &d
+}
+
 func (c *Config) maxN() int {
 	n := 0
 	for _, p := range c.procs() {
@@ -711,92 +744,134 @@ func runC17(c *core.Ctx, r *core.Result) {
 	}
 
 	procs := knowingProcs(maxN)
+	observing := observingProcs(maxN)
 	others := append(append([]Proc{}, procs...), Proc{Ver: unknowing})
-	uposs := []int{0, maxN}
-	midSets := [][]Proc{nil}
+	sendAll := append(append([]Proc{}, procs...), observing...)
+	recvAll := append(append([]Proc{}, others...), observing...)
+	none := [][]Proc{nil}
+	singles := [][]Proc{}
 	for _, m := range others {
-		midSets = append(midSets, []Proc{m})
+		singles = append(singles, []Proc{m})
 	}
-	routeMids := [][]Proc{nil}
-	routeOpts := []opts{{false, 0}}
+	pairs := [][]Proc{}
+	for _, m1 := range others {
+		for _, m2 := range others {
+			pairs = append(pairs, []Proc{m1, m2})
+		}
+	}
+	observingMids := [][]Proc{}
+	for _, m := range observing {
+		observingMids = append(observingMids, []Proc{m})
+	}
+	join := func(sets ...[][]Proc) [][]Proc {
+		var out [][]Proc
+		for _, s := range sets {
+			out = append(out, s...)
+		}
+		return out
+	}
+	bools := []bool{false, true}
+	uposs := []int{0, maxN}
 	if c.Thorough() {
 		uposs = []int{0, 1, 2, 3}
-		for _, m1 := range others {
-			for _, m2 := range others {
-				midSets = append(midSets, []Proc{m1, m2})
-			}
-		}
-		routeMids = midSets[:1+len(others)]
-		routeOpts = []opts{{false, 0}, {true, 0}, {false, maxN}, {true, 1}}
 	}
-	r.Bounds = fmt.Sprintf("rename chains of length n<=%d for a leaf type and a wrapper type, all n! registration orders + the single-call declaration + a differently renamed version + an unknowing process = %d knowing process specs; kinds %v; transfer: every sender x intermediary path (%d paths, length<=%d) x receiver (%d) x encoders{off,on} x unrelated-migration position %v; routes: every unordered pair of senders (second route via %d paths) x receiver; process: every spec (migration table vs model, double registration)",
-		maxN, len(procs), kinds, len(midSets), len(midSets[len(midSets)-1]), len(others), uposs, len(routeMids))
 
 	samples := &sampler{}
+	capped := false
 	stop := func() bool {
-		if c.Expired() {
+		if !capped && c.Expired() {
 			r.Cap("soft deadline reached before the enumeration finished")
-			return true
+			capped = true
 		}
-		return false
+		return capped
+	}
+	transfers := func(senders []Proc, midSets [][]Proc, recvs []Proc, encs []bool, ups []int) {
+		for _, kind := range kinds {
+			for si := range senders {
+				if stop() {
+					return
+				}
+				for _, mids := range midSets {
+					for ri := range recvs {
+						for _, enc := range encs {
+							for _, up := range ups {
+								execute(r, &Config{Phase: "transfer", Kind: kind, Sender: &senders[si], Mids: mids, Recv: &recvs[ri], Enc: enc, UPos: up}, samples)
+							}
+						}
+					}
+				}
+			}
+		}
+	}
+	routes := func(recvs []Proc, midSets [][]Proc, os []opts) {
+		for _, kind := range kinds {
+			for s1 := range procs {
+				if stop() {
+					return
+				}
+				for s2 := s1; s2 < len(procs); s2++ {
+					for _, mids2 := range midSets {
+						for ri := range recvs {
+							for _, o := range os {
+								execute(r, &Config{Phase: "routes", Kind: kind, Sender: &procs[s1], Sender2: &procs[s2], Mids2: mids2, Recv: &recvs[ri], Enc: o.Enc, UPos: o.UPos}, samples)
+							}
+						}
+					}
+				}
+			}
+		}
 	}
 
-	// phase 1: every process on its own
-	for i := range others {
-		for _, enc := range []bool{false, true} {
+	// phase 1: every process on its own, with every subset of its
+	// observation points
+	for i := range recvAll {
+		for _, enc := range bools {
 			for _, up := range uposs {
-				execute(r, &Config{Phase: "process", Proc: &others[i], Enc: enc, UPos: up}, samples)
+				execute(r, &Config{Phase: "process", Proc: &recvAll[i], Enc: enc, UPos: up}, samples)
 			}
 		}
 	}
-	// phase 2: transfers
-	for _, kind := range kinds {
-		for si := range procs {
-			if stop() {
-				return
-			}
-			for _, mids := range midSets {
-				for ri := range others {
-					for _, enc := range []bool{false, true} {
-						for _, up := range uposs {
-							execute(r, &Config{Phase: "transfer", Kind: kind, Sender: &procs[si], Mids: mids, Recv: &others[ri], Enc: enc, UPos: up}, samples)
-						}
-					}
-				}
-			}
-		}
-	}
-	// phase 3: two routes to one receiver
-	for _, kind := range kinds {
-		for s1 := range procs {
-			if stop() {
-				return
-			}
-			for s2 := s1; s2 < len(procs); s2++ {
-				for _, mids2 := range routeMids {
-					for ri := range others {
-						for _, o := range routeOpts {
-							execute(r, &Config{Phase: "routes", Kind: kind, Sender: &procs[s1], Sender2: &procs[s2], Mids2: mids2, Recv: &others[ri], Enc: o.Enc, UPos: o.UPos}, samples)
-						}
-					}
-				}
-			}
-		}
+	if !c.Thorough() {
+		r.Bounds = fmt.Sprintf("rename chains of length n<=%d for a leaf type and a wrapper type: all n! registration orders + the single-call declaration + a differently renamed version = %d knowing process specs, + an unknowing process; every subset of the observation points of a process's start-up history (one point before each rename declaration) = %d more specs; kinds %v; encoders{off,on} x unrelated-migration position %v unless said otherwise. process: every spec. transfer without observations: every sender x {no intermediary, each of %d} x receiver (%d). transfer with an observing sender (every subset) x {no intermediary, V0, unknowing} x every plain receiver; the same with an observing receiver and every plain sender; observing sender x observing receiver (direct, encoders off, position 0); plain sender x observing intermediary x plain receiver (encoders off, position 0). routes: every unordered pair of plain senders x plain receiver (encoders off, position 0)",
+			maxN, len(procs), len(observing), kinds, uposs, len(others), len(others))
+		short3 := [][]Proc{nil, {{Ver: "V0"}}, {{Ver: unknowing}}}
+		transfers(procs, join(none, singles), others, bools, uposs)
+		transfers(observing, short3, others, bools, uposs)
+		transfers(procs, short3, observing, bools, uposs)
+		transfers(observing, none, observing, bools[:1], uposs[:1])
+		transfers(procs, observingMids, others, bools[:1], uposs[:1])
+		routes(others, none, []opts{{false, 0}})
+	} else {
+		r.Bounds = fmt.Sprintf("rename chains of length n<=%d for a leaf type and a wrapper type: all n! registration orders + the single-call declaration + a differently renamed version = %d knowing process specs, + an unknowing process; every subset of the observation points of a process's start-up history (one point before each rename declaration) = %d more specs; kinds %v; encoders{off,on} x unrelated-migration position %v. process: every spec. transfer: every sender (plain or observing, %d) x {no intermediary, each of %d plain} x every receiver (plain or observing, %d); every plain sender x every pair of plain intermediaries (%d) x plain receiver; plain sender x observing intermediary x plain receiver. routes: every unordered pair of plain senders, second route via {none, each of %d}, x every receiver (plain or observing), 4 option combinations",
+			maxN, len(procs), len(observing), kinds, uposs, len(sendAll), len(others), len(recvAll), len(pairs), len(others))
+		transfers(sendAll, join(none, singles), recvAll, bools, uposs)
+		transfers(procs, pairs, others, bools, uposs)
+		transfers(procs, observingMids, others, bools, uposs)
+		routes(recvAll, join(none, singles), []opts{{false, 0}, {true, 0}, {false, maxN}, {true, 1}})
 	}
 	samples.flush(r)
 }
 
-// execute runs one configuration and reports it.
-func execute(r *core.Result, cfg *Config, samples *sampler) {
-	var x *run
+func runConfig(cfg *Config) *run {
 	switch cfg.Phase {
 	case "process":
-		x = runProcess(cfg)
+		return runProcess(cfg)
 	case "transfer":
-		x = runTransfer(cfg)
-	case "routes":
-		x = runRoutes(cfg)
+		return runTransfer(cfg)
 	}
+	return runRoutes(cfg)
+}
+
+func firstKey(x *run) string {
+	if len(x.fails) == 0 {
+		return ""
+	}
+	return x.fails[0].clause + "|" + x.fails[0].at.key()
+}
+
+// execute runs one configuration and reports its first diverging clause.
+func execute(r *core.Result, cfg *Config, samples *sampler) {
+	x := runConfig(cfg)
 	r.States++
 	r.Transitions += x.steps
 	r.Evaluations += x.evals
@@ -807,8 +882,25 @@ func execute(r *core.Result, cfg *Config, samples *sampler) {
 	if len(x.fails) > 0 {
 		f := x.fails[0]
 		verdict = f.clause
-		key := f.clause + "|" + f.at.key()
+		key := firstKey(x)
 		msg := fmt.Sprintf("%s\nconfiguration: %s", f.msg, cfg)
+		needsObs := false
+		if cfg.observes() {
+			// does the failure need the observation points? Run the same
+			// configuration without them.
+			y := runConfig(cfg.plain())
+			r.Transitions += y.steps
+			r.Evaluations += y.evals
+			if firstKey(y) != key {
+				needsObs = true
+				key += "|observed-between"
+				was := "passes"
+				if len(y.fails) > 0 {
+					was = "fails differently (" + firstKey(y) + ")"
+				}
+				msg += "\nthe same configuration without the observation points " + was + ": letting the library see the types between two registrations changes what it answers after all of them"
+			}
+		}
 		if len(x.fails) > 1 {
 			seen := map[string]bool{}
 			var more []string
@@ -824,7 +916,7 @@ func execute(r *core.Result, cfg *Config, samples *sampler) {
 		fresh := !r.HasViolationKey(key)
 		r.Violate(key, msg, cfg)
 		if fresh {
-			if gt := goTestFor(f); gt != "" {
+			if gt := goTestFor(f, needsObs); gt != "" {
 				for _, v := range r.Violations {
 					if v.Key == key {
 						v.GoTest = gt
@@ -839,6 +931,9 @@ func execute(r *core.Result, cfg *Config, samples *sampler) {
 	}
 	r.Outcome(fmt.Sprintf("%s|n=%d|%s", kind, cfg.maxN(), verdict))
 	r.Count("phase:"+cfg.Phase, 1)
+	if cfg.observes() {
+		r.Count("configurations-with-observation-points", 1)
+	}
 	if samples != nil {
 		samples.offer(r, cfg, x, verdict)
 	}
@@ -853,6 +948,9 @@ type sampler struct {
 
 func scenarioOf(c *Config) string {
 	if c.Kind != "leaf" || c.Enc || c.UPos != 0 {
+		return ""
+	}
+	if c.observes() {
 		return ""
 	}
 	is := func(p *Proc, ver string) bool { return p != nil && p.Ver == ver && !p.Direct }
@@ -912,8 +1010,11 @@ func (s *sampler) flush(r *core.Result) {
 
 // goTestFor writes a stand-alone test (public API only) for failures whose
 // root is the type key computed after a chain of declarations.
-func goTestFor(f failure) string {
+func goTestFor(f failure, withObs bool) string {
 	p := f.at
+	if !withObs {
+		p = p.plain()
+	}
 	if p.Direct || len(p.Order) < 2 {
 		return ""
 	}
@@ -931,7 +1032,21 @@ func goTestFor(f failure) string {
 	b.WriteString("// The same type was renamed renamed0 -> renamed1 -> ...; each rename is\n// declared, in the order " + orderString(p.Order) + " (step i is renamed<i> -> renamed<i+1>).\n")
 	b.WriteString("func TestChainedMigrationRegistrationOrder(t *testing.T) {\n\tdefer errbase.TestingWithEmptyMigrationRegistry()()\n")
 	b.WriteString("\tpkg := reflect.TypeOf(renamed0{}).PkgPath()\n")
-	for _, s := range p.Order {
+	obs := map[int]bool{}
+	for _, i := range p.Obs {
+		obs[i] = true
+	}
+	seen := []int{n}
+	for i, s := range p.Order {
+		if obs[i] {
+			b.WriteString("\t// the library sees the types declared so far (and the current one)\n")
+			for _, k := range seen {
+				fmt.Fprintf(&b, "\t_ = errors.GetTypeKey((*renamed%d)(nil))\n", k)
+			}
+		}
+		if s+1 != n {
+			seen = append(seen, s+1)
+		}
 		fmt.Fprintf(&b, "\terrors.RegisterTypeMigration(pkg, \"*errors_test.renamed%d\", (*renamed%d)(nil))\n", s, s+1)
 	}
 	fmt.Fprintf(&b, "\twant := errors.TypeKey(pkg + \"/*errors_test.renamed0\")\n\tif got := errors.GetTypeKey((*renamed%d)(nil)); got != want {\n\t\tt.Fatalf(\"type key of the newest name is %%q, want the original name %%q\", got, want)\n\t}\n}\n", n)
